@@ -72,6 +72,9 @@ pub enum Ev {
     RawFrameIn,
     /// `FramedWrite::buffer` is about to encode one frame item.
     FrameOut,
+    /// A named call site was reached for stream `id` (diagnostic marker used to
+    /// tell known findings apart from new ones).
+    Note { site: &'static str, id: u32 },
 }
 
 pub fn enable_events(on: bool) {
